@@ -232,6 +232,13 @@ impl<H: Hasher> BatchMerkleProof<H> {
                 i += 1;
             }
         }
+
+        // make sure all nodes of the proof were used; a proof with left-over nodes is malformed
+        if proof_pointers.iter().zip(self.nodes.iter()).any(|(&pointer, nodes)| pointer != nodes.len())
+        {
+            return Err(MerkleTreeError::InvalidProof);
+        }
+
         v.remove(&1).ok_or(MerkleTreeError::InvalidProof)
     }
 
